@@ -230,8 +230,14 @@ func iccSequences(r *ev.Run, depth int, keyPrefix string, header, desc bool) {
 							}
 						}
 						if desc && !profs[x].descErr {
-							if d, derr := got.Description(); derr != nil || !containsStr(profs[x].descs, d) {
-								r.Violate(keyPrefix+"/back-to-back-description", fmt.Sprintf("%s: Description() = %q (err %v), expected %q", name, d, derr, profs[x].descs), nil, nil)
+							var d string
+							var derr error
+							okD, pnD := withTimeout(60*time.Second, func() { d, derr = got.Description() })
+							if !okD {
+								hung = true
+							}
+							if !okD || pnD != nil || derr != nil || !containsStr(profs[x].descs, d) {
+								r.Violate(keyPrefix+"/back-to-back-description", fmt.Sprintf("%s: Description() = %q (err %v, returned %v, panic %v), expected %q", name, d, derr, okD, pnD, profs[x].descs), nil, nil)
 							}
 						}
 					}
